@@ -37,6 +37,7 @@ type Obj struct {
 	Size         int64
 	Adds         int   // how many times it is added
 	MissingLocal bool  // upload only: local file absent and Add(missing=true)
+	LocalState   string `json:",omitempty"` // upload only: "lost" (file absent) or "truncated" (one byte short) although Add(missing=false)
 	DataSeed     int64 // real-adapter cases: the object's bytes are Content(DataSeed, Size) and Oid is their SHA-256
 }
 
@@ -606,11 +607,15 @@ func Run(c Case, scratch string) *Record {
 	paths := map[string]string{}
 	for _, o := range c.Objs {
 		p := filepath.Join(filepath.Dir(gitdir), "obj-"+o.Oid[:12])
-		if c.Upload && !o.MissingLocal {
+		if c.Upload && !o.MissingLocal && o.LocalState != "lost" {
+			n := o.Size
+			if o.LocalState == "truncated" {
+				n--
+			}
 			if c.Real {
-				os.WriteFile(p, Content(o.DataSeed, o.Size), 0o644)
+				os.WriteFile(p, Content(o.DataSeed, o.Size)[:n], 0o644)
 			} else {
-				os.WriteFile(p, make([]byte, o.Size), 0o644)
+				os.WriteFile(p, make([]byte, n), 0o644)
 			}
 		}
 		paths[o.Oid] = p
